@@ -69,12 +69,12 @@ let check inp obs =
       let hba = align_up c.c_hb in
       let rec first_bad g i = function
         | [] -> None
-        | (o, ob) :: r -> if step_ok hba g o ob then first_bad (track g o ob) (i + 1) r else Some (i, g) in
+        | (o, ob) :: r -> if step_ok hba g o ob then first_bad (track hba g o ob) (i + 1) r else Some (i, g) in
       let prop = check c impl in
       let bad = first_bad (ghost0 c.c_pages) 0 impl in
       (match bad with Some _ when prop -> fail "C28: check/step_ok disagree" | None when not prop -> fail "C28: check/step_ok disagree" | _ -> ());
       (* final ghost for tags *)
-      let gfin = List.fold_left (fun g (o, ob) -> track g o ob) (ghost0 c.c_pages) impl in
+      let gfin = List.fold_left (fun g (o, ob) -> track hba g o ob) (ghost0 c.c_pages) impl in
       if gfin.g_void then tag "void-assumption-broken";
       if gfin.g_dead then tag "poisoned";
       let succ = ref 0 and freed = Hashtbl.create 8 and reuse = ref false and grew = ref false in
